@@ -6,12 +6,25 @@
   value algebra `A` (comparison operators, ORDER BY order, aggregate folds — C23/C20/C21).
 
   Status: PARTIAL.  `C11_full` is false on the pinned tree (counterexample theorems below, each replayed on the
-  real engine through corpus/query/*.ops; two former counterexamples were repaired by `fix:` commits).  `C11_partial_statement` (the full statement restricted to inputs
-  that trigger no known finding) is the target; what is proved so far are the operator lemmas `op*`, stated over
-  all graphs / tables / rows / expressions.
+  real engine through corpus/query/*.ops; three former counterexamples were repaired by `fix:` commits).
+  `C11_partial_statement` (the full statement restricted to inputs that trigger no known finding and whose
+  result is determined as a bag) is the target.  Proved:
+    * `C11_core` — the clause-list induction, complete, on the MATCH-free relational core (UNWIND, WHERE, WITH,
+      RETURN with DISTINCT / SKIP / LIMIT, no aggregates, no ORDER BY): compile succeeds and the plan evaluates to
+      *exactly* the reference's list of rows, for every algebra, graph, parameter map and query;
+    * the operator lemmas `op*` for the other plan operators, stated over all graphs / tables / rows /
+      expressions: scan + labels, the three single-hop expansions (incl. the self-loop rule), join on a bound start
+      variable / cartesian product for a fresh one, OptionalWhereFixup as per-row null padding, grouping and the
+      empty-input aggregate row, ORDER BY = the reference's merge sort (hence sorted and stable), SKIP / LIMIT,
+      DISTINCT, UNWIND.
+  Not proved: the induction steps that chain these lemmas through `compile` for MATCH clauses, aggregating
+  projections and ORDER BY (see props/C11.json `unproved_part`).
 -/
 import Nervus.Proofs.CypherOps
 import Nervus.Proofs.CypherExpand
+import Nervus.Proofs.CypherJoin
+import Nervus.Proofs.CypherAgg
+import Nervus.Proofs.CypherCore
 import Nervus.Model.QRun
 import Nervus.Model.QAlgebra
 namespace Nervus.Props.C11
@@ -23,10 +36,36 @@ def C11_full : Prop :=
   ∀ (A : Algebra) (env : Env) (q : Query), env.g.NodesDistinct → Spec.WellScoped q → InF1 q = true →
     Agrees (Exec.run A env q) (Spec.denote A env q)
 
-/-- the restriction that is claimed: no known finding is triggered (decidable predicate on graph + query) -/
+/-- the restriction that is claimed: no known finding is triggered (decidable predicate on graph + query), the
+    result is determined as a bag, and the aggregate folds do not depend on the order of their input -/
 def C11_partial_statement : Prop :=
   ∀ (A : Algebra) (env : Env) (q : Query), env.g.NodesDistinct → Spec.WellScoped q → InF1 q = true →
-    NoKnownTrigger A env q = true → Agrees (Exec.run A env q) (Spec.denote A env q)
+    NoKnownTrigger A env q = true → BagDetermined q = true → AggBagInvariant A →
+    Agrees (Exec.run A env q) (Spec.denote A env q)
+
+/-! ### proved: the clause-list induction on the relational core -/
+
+/-- **C11 on the relational core** (`InCore`: UNWIND / WHERE / WITH / RETURN, plain items, DISTINCT, SKIP, LIMIT):
+    the modelled engine returns exactly the list of rows the reference denotes, or the same error — for every value
+    algebra, graph, parameter map and well-scoped query.  No further hypothesis: no known finding lives here. -/
+theorem C11_core (A : Algebra) (env : Env) (q : Query) (hc : InCore q = true) (hs : Spec.WellScoped q) :
+    Exec.run A env q = (Spec.denote A env q).map Spec.Result.rows :=
+  core_refines A env q hc hs
+
+/-- … in particular `C11_full`'s conclusion holds on the core -/
+theorem C11_core_agrees (A : Algebra) (env : Env) (q : Query) (hc : InCore q = true) (hs : Spec.WellScoped q) :
+    Agrees (Exec.run A env q) (Spec.denote A env q) :=
+  agrees_of_eq _ _ (core_refines A env q hc hs)
+
+/-- the induction behind it, from any intermediate state: a loop state whose plan evaluates to `T` and whose
+    compile-time scope is the reference scope `s`, followed by core clauses -/
+theorem C11_core_induction (A : Algebra) (env : Env) (q : Query) (b : Bool) (l : Compile.Loop) (T : Table)
+    (s s' : List String) (hc : coreClauses b q = true) (hs : Spec.scopeAfter s q = some s')
+    (hp : l.pending = none) (hb : b = true → l.plan.isSome = true)
+    (hx : Exec.exec A env (l.plan.getD .returnOne) = .ok T)
+    (hk : KOk (Compile.outKinds (l.plan.getD .returnOne)) s) :
+    runLoop A env q l = (Spec.denoteClauses A env q T).map Spec.Result.rows :=
+  core_induction A env q b l T s s' hc hs hp hb hx hk
 
 /-! ### proved obligations: one lemma per plan operator -/
 
@@ -48,6 +87,27 @@ theorem op2_expand_out (A : Algebra) (g : Graph) (hnp : NoParallel g) (r : Row) 
     ((Exec.stepOut g r a rels ev d dl (some pa)).map (eraseCol pa)).Perm
       ((Spec.matchSteps A { g } used a (eraseCol pa r) [(⟨ev, rels, .out, []⟩, ⟨some d, dl, []⟩)]).map (·.1)) :=
   expand_out_row A g hnp r a rels hrels ev d pa dl used hpa hd hev
+
+/-- op 2 (incoming hop): as `op2_expand_out` for MatchIn; the engine binds the destination before the relationship
+    variable, so the rows agree up to column order (`TableEquiv`: a permutation, then position-wise equal bindings) -/
+theorem op2_expand_in (A : Algebra) (g : Graph) (hnp : NoParallel g) (r : Row) (a : Nat) (rels : List String)
+    (hrels : rels.Nodup) (ev : Option String) (d pa : String) (dl : List String) (used : List RelId)
+    (hpa : PathRel r pa used) (hd : d ≠ pa)
+    (hev : ∀ x, ev = some x → x ≠ pa ∧ x ≠ d ∧ r.get x = none) :
+    TableEquiv ((Exec.stepIn g r a rels ev d dl (some pa)).map (eraseCol pa))
+      ((Spec.matchSteps A { g } used a (eraseCol pa r) [(⟨ev, rels, .inn, []⟩, ⟨some d, dl, []⟩)]).map (·.1)) :=
+  expand_in_row A g hnp r a rels hrels ev d pa dl used hpa hd hev
+
+/-- op 2 (undirected hop): MatchUndirected (outgoing half, then the incoming half without self-loops) against one
+    undirected step of the reference — every relationship incident to `a` once per direction it can be walked, a
+    self-loop once -/
+theorem op2_expand_both (A : Algebra) (g : Graph) (hnp : NoParallel g) (r : Row) (a : Nat) (rels : List String)
+    (hrels : rels.Nodup) (ev : Option String) (d pa : String) (dl : List String) (used : List RelId)
+    (hpa : PathRel r pa used) (hd : d ≠ pa)
+    (hev : ∀ x, ev = some x → x ≠ pa ∧ x ≠ d ∧ r.get x = none) :
+    TableEquiv ((Exec.stepBoth g r a rels ev d dl (some pa)).map (eraseCol pa))
+      ((Spec.matchSteps A { g } used a (eraseCol pa r) [(⟨ev, rels, .both, []⟩, ⟨some d, dl, []⟩)]).map (·.1)) :=
+  expand_both_row A g hnp r a rels hrels ev d pa dl used hpa hd hev
 
 /-- op 2': the engine's "already used" test is membership in the reference's `used` set when no identity has
     parallel copies -/
@@ -74,6 +134,69 @@ theorem op4_project (A : Algebra) (env : Env) (i : Plan) (items : List Item) (T 
       .ok ((Spec.projectRows A env ⟨false, items, [], none, none⟩ T).map (·.1)) :=
   project_correct A env i items T h hplain hnd
 
+/-- op 5a (a further MATCH joins on a shared variable): matching a pattern whose start variable is already bound
+    to a live node is a label check on the existing row followed by the hops from that node -/
+theorem op5_join_bound (A : Algebra) (env : Env) (hg : env.g.NodesDistinct) (used : List RelId) (r : Row)
+    (a : String) (nd : NodeRec) (hmem : nd ∈ env.g.nodes) (hr : r.get a = some (.node nd.id)) (ls : List String)
+    (steps : List (RelPat × NodePat)) :
+    Spec.matchPath A env used r ⟨⟨some a, ls, []⟩, steps⟩ =
+      if ls.all (env.g.hasLabel nd.id) then Spec.matchSteps A env used nd.id r steps else [] :=
+  matchPath_bound A env hg used r a nd hmem hr ls steps
+
+/-- … and that label check is what the planner's label Filter evaluates on such a row -/
+theorem op5_join_label_filter (A : Algebra) (env : Env) (r : Row) (a : String) (n : Nat) (ls : List String)
+    (e : Expr) (hr : r.get a = some (.node n))
+    (he : Compile.andChain (ls.map fun l => Expr.bool .or (.isNull (.var a)) (.hasLabel (.var a) l)) = some e) :
+    evalBool A env r e = ls.all (env.g.hasLabel n) :=
+  evalBool_labelFilter_bound A env r a n ls e hr he
+
+/-- op 5b (no shared variable): a fresh start variable ranges over the labelled nodes, appended to the row — the
+    rows of `CartesianProduct(existing, NodeScan a)` under the label filter -/
+theorem op5_join_fresh (A : Algebra) (env : Env) (used : List RelId) (r : Row) (a : String) (ha : a ∉ r.cols)
+    (ls : List String) :
+    (Spec.matchPath A env used r ⟨⟨some a, ls, []⟩, []⟩).map (·.1) =
+      (env.g.nodes.filter fun n => ls.all (env.g.hasLabel n.id)).map fun n => r ++ [(a, Val.node n.id)] :=
+  matchPath_fresh A env used r a ha ls
+
+/-- op 6 (OPTIONAL MATCH): over pairwise distinct outer rows OptionalWhereFixup keeps for every outer row exactly
+    its own matches, or pads it with nulls when it has none — the reference's per-row rule.  (`hnd` is what the
+    known finding C11-optional-duplicate-outer-rows violates.) -/
+theorem op6_optional_fixup (outer : Table) (ext : Row → Table) (nulls : List String) (hnd : outer.Nodup)
+    (hself : ∀ o ∈ outer, ∀ r ∈ ext o, Exec.containsAllBindings r o = true)
+    (hother : ∀ o ∈ outer, ∀ o' ∈ outer, o' ≠ o → ∀ r ∈ ext o', Exec.containsAllBindings r o = false) :
+    Exec.optionalFixup outer (outer.flatMap ext) nulls =
+      outer.flatMap fun o => if (ext o).isEmpty then [nulls.foldl (fun r a => r.set a .null) o] else ext o :=
+  optionalFixup_correct outer ext nulls hnd hself hother
+
+/-- op 6': the engine's padding (overwrite the new aliases with null) is the reference's (bind the still unbound
+    pattern variables to null) when none of them is bound -/
+theorem op6_padding (r : Row) (xs : List String) (h : ∀ x ∈ xs, r.get x = none) :
+    Spec.padNulls r xs = xs.foldl (fun r a => r.set a .null) r :=
+  padNulls_eq_foldl r xs h
+
+/-- op 8a (implicit grouping): the executor's groups are the reference's, and those are: one group per distinct
+    key, holding exactly the input rows with that key in input order, none empty, every row in one -/
+theorem op8_groups (gb : List String) (T : Table) :
+    Exec.groupRows gb T = Spec.groupBy (fun r => gb.filterMap r.get) T ∧
+    GroupsOf (fun r => gb.filterMap r.get) T (Spec.groupBy (fun r => gb.filterMap r.get) T) :=
+  ⟨groupRows_eq gb T, groupBy_groups _ T⟩
+
+/-- op 8b (aggregation without grouping keys): exactly one row aggregating the whole input — also over the empty
+    input (the "empty-input row": count = 0, min = null, …) -/
+theorem op8_aggregate_global (A : Algebra) (env : Env) (aggs : List (AggFn × String)) (T : Table) :
+    Exec.aggregate A env [] aggs T =
+      [aggs.foldl (fun (r : Row) (p : AggFn × String) => r.set p.2 (Exec.aggValue A env p.1 T)) []] :=
+  aggregate_global A env aggs T
+
+/-- op 8c (aggregation with grouping keys): one row per reference group (so none over the empty input) -/
+theorem op8_aggregate_keyed (A : Algebra) (env : Env) (gb : List String) (hgb : gb.isEmpty = false)
+    (aggs : List (AggFn × String)) (T : Table) :
+    Exec.aggregate A env gb aggs T =
+      (Spec.groupBy (fun r => gb.filterMap r.get) T).map fun (p : List Val × Table) =>
+        aggs.foldl (fun (r : Row) (q : AggFn × String) => r.set q.2 (Exec.aggValue A env q.1 p.2))
+          ((gb.zip p.1).foldl (fun (r : Row) (kv : String × Val) => r.set kv.1 kv.2) []) :=
+  aggregate_keyed A env gb hgb aggs T
+
 /-- op 7: Distinct = reference DISTINCT on a projected table -/
 theorem op7_distinct (T : List (Row × Row)) (hcols : ∀ x ∈ T, ∀ y ∈ T, x.1.cols = y.1.cols) :
     Exec.distinct (T.map (·.1)) = (Spec.dedupBy (·.1) T).map (·.1) :=
@@ -83,6 +206,21 @@ theorem op7_distinct (T : List (Row × Row)) (hcols : ∀ x ∈ T, ∀ y ∈ T, 
 theorem op9_orderBy_perm (A : Algebra) (env : Env) (items : List (Expr × Bool)) (T : Table) :
     (Exec.orderBy A env items T).Perm T :=
   orderBy_perm A env items T
+
+/-- op 9a': OrderBy is the (stable) merge sort of its input by the reference comparator `rowLe` — the very list the
+    reference's ORDER BY denotes (`Spec.keyLe` is `rowLe` on the row the keys are evaluated in) -/
+theorem op9_orderBy_mergeSort (A : Algebra) (env : Env) (items : List (Expr × Bool)) (T : Table) :
+    Exec.orderBy A env items T = T.mergeSort (rowLe A env items) ∧
+    ∀ a b : Row × Row, Spec.keyLe A env items a b = rowLe A env items a.2 b.2 :=
+  ⟨orderBy_eq_mergeSort A env items T, keyLe_eq_rowLe A env items⟩
+
+/-- op 9a'' (sortedness): when the value order is a total preorder (`CmpLaws`, C23), the output of OrderBy is
+    sorted — no row is followed, anywhere later, by a row that the comparator puts strictly before it — and equal
+    rows keep their input order -/
+theorem op9_orderBy_sorted (A : Algebra) (env : Env) (h : CmpLaws A.ord) (items : List (Expr × Bool)) (T : Table) :
+    ((Exec.orderBy A env items T).Pairwise fun a b => rowLe A env items a b = true) ∧
+    ∀ a b, rowLe A env items a b = true → [a, b].Sublist T → [a, b].Sublist (Exec.orderBy A env items T) :=
+  ⟨orderBy_sorted A env h items T, fun a b => orderBy_stable A env h items T a b⟩
 
 /-- op 9b: Skip / Limit = drop / take -/
 theorem op9_skip_limit (A : Algebra) (env : Env) (i : Plan) (T : Table) (h : Exec.exec A env i = .ok T)
@@ -127,6 +265,19 @@ def q2 : Query :=
 example : Spec.WellScoped q2 ∧ InF1 q2 = true ∧ NoKnownTrigger small { g := g1 } q2 = true := by decide
 example : Agrees (Exec.run small { g := g1 } q2) (Spec.denote small { g := g1 } q2) := by decide
 
+/-- `UNWIND [3,1,1] AS x WITH DISTINCT x AS y SKIP 1 WHERE y < 5 RETURN y AS z LIMIT 3` is a core query -/
+def q3 : Query :=
+  [.unwind (.listLit [.int 3, .int 1, .int 1]) "x",
+   .with_ ⟨true, [⟨.plain (.var "x"), "y"⟩], [], some (.int 1), none⟩ none,
+   .where_ (.cmp .lt (.var "y") (.lit (.int 5))),
+   .return_ ⟨false, [⟨.plain (.var "y"), "z"⟩], [], none, some (.int 3)⟩]
+
+example : InCore q3 = true ∧ Spec.WellScoped q3 := by decide
+example : okRows (Exec.run small { g := g1 } q3) = some [[("z", .int 1)]] := by decide
+/-- a core query on which both sides fail alike (negative LIMIT) -/
+example : okRows (Exec.run small { g := g1 }
+    [.return_ ⟨false, [⟨.plain (.lit (.int 1)), "a"⟩], [], none, some (.int (-1))⟩]) = none := by decide
+
 /-! ### counterexamples: `C11_full` is false of the model (and of the engine: corpus/query/*.ops) -/
 
 /-- formerly a counterexample (Distinct planned above Limit), repaired by fix ceade13:
@@ -137,6 +288,7 @@ def qDistinctLimit : Query :=
 
 example : Agrees (Exec.run small { g := ⟨[], []⟩ } qDistinctLimit) (Spec.denote small { g := ⟨[], []⟩ } qDistinctLimit) := by
   decide
+example : InCore qDistinctLimit = true ∧ Spec.WellScoped qDistinctLimit := by decide
 
 /-- two parallel copies of one relationship identity: the engine lets a chain re-use the identity
     (`MATCH (a)-[:T]->(b)<-[:T]-(c)` over (0)-[:T]->(1) ×2 yields 4 rows; injective matching on identities: 0). -/
@@ -176,14 +328,13 @@ theorem counterexample_optional_duplicate_outer :
     ¬ Agrees (Exec.run small { g := gOneNode } qOptionalDup) (Spec.denote small { g := gOneNode } qOptionalDup) := by
   decide
 
-/-- the property map of an anonymous relationship pattern is dropped by the planner:
-    `MATCH (a)-[{w: 5}]->(b)` matches a relationship without `w`. -/
+/-- formerly a counterexample (the planner dropped the property map of an anonymous relationship pattern),
+    repaired by fix 0a34a68: `MATCH (a)-[{w: 5}]->(b)` no longer matches a relationship without `w`. -/
 def qAnonRelProps : Query :=
   [.match_ false [⟨⟨some "a", [], []⟩, [(⟨none, [], .out, [("w", .lit (.int 5))]⟩, ⟨some "b", [], []⟩)]⟩],
    .return_ ⟨false, [⟨.plain (.var "a"), "a"⟩], [], none, none⟩]
 
-theorem counterexample_anon_rel_props :
-    ¬ Agrees (Exec.run small { g := gOneRel } qAnonRelProps) (Spec.denote small { g := gOneRel } qAnonRelProps) := by
+example : Agrees (Exec.run small { g := gOneRel } qAnonRelProps) (Spec.denote small { g := gOneRel } qAnonRelProps) := by
   decide
 
 /-- a bound variable in the middle of a pattern whose end nodes are free: `MATCH (a) MATCH (b)-->(a)-->(c)` -/
